@@ -49,7 +49,7 @@ def account(ck, r, prefix):
     ck.states += r.distinct
     ck.transitions += r.generated
     for a, (tk, gn) in r.coverage.items():
-        ck.cov[prefix + a] = ck.cov.get(prefix + a, 0) + tk
+        ck.cov[prefix + a] = ck.cov.get(prefix + a, 0) + gn
 
 
 def validate_sharded(ck, spec, trace_path, nshards, by_reset=False):
@@ -92,6 +92,9 @@ def validate_sharded(ck, spec, trace_path, nshards, by_reset=False):
             raise vf.Infra("%s cannot consume line %d of %s (no action for this event): %s" % (
                 spec, base + v.maxl, os.path.basename(trace_path), ln[:300]))
         bad += [base + int(x) for x in re.findall(r'<<"BAD", (\d+)>>', v.out)]
+        skipped = len(re.findall(r'<<"SKIP", (\d+)>>', v.out))
+        if skipped:
+            ck.skipped = getattr(ck, "skipped", 0) + skipped
         dev += [(d, base + int(x)) for d, x in re.findall(r'<<"DEV", "(\w+)", (\d+)>>', v.out)]
         os.remove(p)
     ck.note("validate %s against %s: %d events in %d shards, %.1fs, BAD=%d DEV=%d" % (
@@ -133,7 +136,7 @@ def self_test_corrupt(ck, spec, lines, mutate, what):
     v = vf.validate_trace(os.path.join(SPECDIR, spec + ".tla"), os.path.join(SPECDIR, spec + ".cfg"), p, tag="C19_self")
     if v.error:
         raise vf.Infra("self-test (%s): %s" % (what, v.error))
-    bad = [int(x) for x in re.findall(r'<<"BAD", (\d+)>>', v.out)]
+    bad = [int(x) for x in re.findall(r'<<"BAD", (\d+)>>', v.out)] + [int(x) for x in re.findall(r'<<"DEV", "\w+", (\d+)>>', v.out)]
     if bad != [len(chunk)]:
         raise vf.Infra("self-test: %s accepted a corrupted trace (%s): BAD=%s expected [%d]" % (spec, what, bad, len(chunk)))
 
@@ -239,7 +242,7 @@ def rerun_single(ck, mode, case_line, spec, extra=()):
     cp = os.path.join(ck.work, "rerun_case.txt")
     open(cp, "w").write(case_line + "\n")
     outp = os.path.join(ck.work, "rerun.ndjson")
-    run_drv("drv_dns" if mode == "cache" else "drv_dns.asan", mode, cp, outp, 1, extra)
+    run_drv("drv_dns" if mode == "cache" else "drv_dns_e2e.asan" if mode == "e2e" else "drv_dns.asan", mode, cp, outp, 1, extra)
     v = vf.validate_trace(os.path.join(SPECDIR, spec + ".tla"), os.path.join(SPECDIR, spec + ".cfg"), outp, tag="C19_rerun")
     if v.error:
         raise vf.Infra("re-run validation: " + v.error)
@@ -287,6 +290,8 @@ def part_records(ck, thorough, tlc_results):
                 chosen += ck.rng.sample(ps, min(len(ps), 3500))
         resp = chosen
         qry = ck.rng.sample(qry, min(len(qry), 400))
+    if thorough:
+        part_e2e(ck, resp)
     plans = resp + qry
     kinds = Counter((p["mm"] if "mm" in p else "query") for p in plans)
     types = Counter(r_["ty"] for p in resp for r_ in p["rrs"])
@@ -396,6 +401,40 @@ def part_records(ck, thorough, tlc_results):
         ck.classify(sig, "well-formed response rejected: an A record whose address has first octet >= 0xC0, second < 64 and "
                     "last two 0 (e.g. 192.5.0.0) is taken for a compression pointer by validateRdataSecurity "
                     "(%d plans, first: %s)" % (len(bs), line[:200]), rp)
+
+
+# ------------------------------------------------------------------------------------------------ end to end
+def part_e2e(ck, resp_plans):
+    """thorough tier: a stratified seeded sample of response plans is served over loopback UDP to a real DnsTransport"""
+    ck.make("drv_dns_e2e.asan")
+    by = defaultdict(list)
+    for p in resp_plans:
+        if len(p["rrs"]) == 1:
+            by[p["mm"]].append(p)
+    chosen = []
+    for k, ps in sorted(by.items()):
+        chosen += ck.rng.sample(ps, min(len(ps), 8 if k == "exact" else 4))
+    cp = os.path.join(ck.work, "e2e_cases.txt")
+    open(cp, "w").write("\n".join(json.dumps(p, separators=(",", ":")) for p in chosen) + "\n")
+    outp = os.path.join(ck.work, "e2e.ndjson")
+    ck.note("drv_dns_e2e.asan e2e: " + run_drv("drv_dns_e2e.asan", "e2e", cp, outp, 4))
+    lines, bad, dev = validate_sharded(ck, "DnsRecordsTrace", outp, 1)
+    evs = [json.loads(ln) for ln in lines]
+    if len(evs) != len(chosen):
+        raise vf.Infra("e2e: %d events for %d plans" % (len(evs), len(chosen)))
+    if any(e["e"] == "E2E" and e["res"] in ("ok", "err") and not e["served"] for e in evs):
+        raise vf.Infra("e2e: the UDP mock never received the query")
+    ck.evaluations += len(chosen)
+    ck.traces += len(chosen) - len(bad)
+    ck.note("e2e: %d plans answered to DnsTransport::query: %s; slowest completion %d ms" % (
+        len(chosen), dict(Counter((e["res"], e["exc"]) for e in evs)), max(e["ms"] for e in evs)))
+    for b in bad:
+        e = evs[b - 1]
+        rp = ck.save_replay("e2e_%d" % b, {"kind.txt": "e2e\n", "case.txt": json.dumps(e["plan"], separators=(",", ":")) + "\n",
+                                          "event.ndjson": lines[b - 1] + "\n", "stderr.txt": stderr_excerpt(outp)})
+        ck.violation("DnsTransport::query on a %s response ended in '%s' (%s)" % (e["plan"]["mm"], e["res"], e["exc"]), rp)
+    for d, b in dev:
+        ck.classify(SIG_A_PTRLIKE, "end to end: well-formed response with an A record that looks like a compression pointer rejected", "-")
 
 
 # ------------------------------------------------------------------------------------------------ cache
@@ -603,10 +642,15 @@ def run(ck):
         return k, vf.run_tlc(kw.pop("module_path"), kw.pop("cfg_path"), tag="C19_" + k, **kw)
     with cf.ThreadPoolExecutor(max_workers=6) as ex:
         res = dict(ex.map(go, list(jobs)))
-    ck.exhaustive = True
+    # TLC enumerations are exhaustive within the stated bounds; the quick tier executes a seeded sample of the record plans
+    ck.exhaustive = bool(thorough)
     part_names(ck, thorough, res)
     part_records(ck, thorough, res)
     part_cache(ck, thorough, res)
+    if getattr(ck, "skipped", 0):
+        ck.note("%d cases were skipped by the driver after repeated crashes / hangs in their shard" % ck.skipped)
+        if not ck.violations:
+            raise vf.Infra("cases were skipped although no violation was reported")
     ck.assumptions += [
         "a name that runs off the end of the buffer without terminator, a reserved label type, a cut label or pointer, an "
         "oversize name and a malformed RDATA may end in a decoded message OR an error (the statement asks only for "
@@ -624,7 +668,9 @@ def replay(ck, path):
     ck.make("drv_dns", "drv_dns.asan")
     kind = open(os.path.join(path, "kind.txt")).read().strip()
     case = open(os.path.join(path, "case.txt")).read().strip()
-    spec = {"name": "DnsNameTrace", "rec": "DnsRecordsTrace", "cache": "DnsCacheTrace"}[kind]
+    spec = {"name": "DnsNameTrace", "rec": "DnsRecordsTrace", "e2e": "DnsRecordsTrace", "cache": "DnsCacheTrace"}[kind]
+    if kind == "e2e":
+        ck.make("drv_dns_e2e.asan")
     flagged = rerun_single(ck, kind, case, spec, [ck.seed, 12] if kind == "rec" else [])
     print(open(os.path.join(ck.work, "rerun.ndjson")).read()[:4000])
     print(stderr_excerpt(os.path.join(ck.work, "rerun.ndjson"), 3000))
